@@ -23,7 +23,7 @@ STUB = ['transport/reactor (txsim.core)', 'Tor: control server with configuratio
 
 PROBES = {
     'C10': ['edit-between-save-and-ack', 'rejected-save', 'rejected-save-then-edit', 'overlapping-saves', 'save-nothing-pending',
-            'list-append', 'list-extend', 'list-insert', 'list-remove', 'list-pop', 'list-setitem', 'list-emptied',
+            'list-append', 'list-extend', 'list-insert', 'list-remove', 'list-pop', 'list-setitem', 'list-emptied', 'inplace-edit-of-inflight-option',
             'assign-scalar', 'assign-list', 'random-case-name', 'quiet-point-checked', 'segmented-delivery'],
     'C11': ['defaults-absent', 'defaults-empty', 'defaults-many', 'option-unset-with-default', 'option-unset-no-default',
             'conf-changed-0-values', 'conf-changed-1-value', 'conf-changed-many-values', 'read-edit-save-after-conf-changed',
@@ -329,8 +329,15 @@ class ConfigRun(object):
         if self.announced_undelivered(o) and o.name.lower() not in self.unacked:
             return      # two controllers racing on one option: outside the statement (Appendix A.5)
         if typ in LISTY:
-            if not o.assigned and not self.in_flight_option(o) and ch.chance(2, 3, 'inplace'):
-                return self.op_list_inplace(o)
+            if not o.assigned and ch.chance(2, 3, 'inplace'):
+                inflight = self.in_flight_option(o)
+                self.op_list_inplace(o)
+                if inflight:
+                    # the view may be replaced by Tor's CONF_CHANGED echo of the save in flight: no further
+                    # in-place edits (and no view comparison) until this edit has been saved and acknowledged
+                    o.assigned = True
+                    sim.probe('inplace-edit-of-inflight-option')
+                return
             k = ch.draw(4, 'alen')
             new = ['new%d v%d' % (o.version, i) if typ != 'PORT' else str(9100 + o.version * 7 + i) for i in range(k)]
             if k == 0 and not sim.gate('emptied-list'):
